@@ -22,6 +22,12 @@ pub struct GenCfg {
     pub views: bool,
     pub compression_meta: bool,
     pub large_values: bool,
+    /// dictionary columns (the legacy 0.1 format keeps ONE dictionary per column and file, so random
+    /// per-batch dictionaries are not a valid input there)
+    pub dictionary: bool,
+    /// generate null values at all (format 0.1 has no null support: docs/src/format/file/versioning.md,
+    /// "2.0 … introduced null support for lists, fixed size lists, and primitives")
+    pub nulls: bool,
 }
 
 const WORDS: &[&str] = &[
@@ -65,7 +71,7 @@ pub fn gen_leaf_type(rng: &mut Rng, cfg: &GenCfg) -> DataType {
         23 => DataType::Binary,
         24 => DataType::LargeBinary,
         25 => DataType::FixedSizeBinary(*rng.pick(&[1, 2, 3, 8, 16, 33])),
-        26 | 27 => {
+        26 | 27 if cfg.dictionary => {
             let key = rng
                 .pick(&[DataType::Int8, DataType::Int16, DataType::Int32, DataType::UInt8, DataType::UInt32, DataType::Int64])
                 .clone();
@@ -310,7 +316,7 @@ macro_rules! prim {
 
 /// array of `n` values for `field` (nullability of the field decides whether nulls occur)
 pub fn gen_array(rng: &mut Rng, field: &Field, n: usize, cfg: &GenCfg) -> ArrayRef {
-    let nb = nulls(rng, field.is_nullable(), n);
+    let nb = nulls(rng, field.is_nullable() && cfg.nulls, n);
     let small = rng.chance(1, 2);
     let large = cfg.large_values;
     match field.data_type() {
@@ -474,7 +480,7 @@ pub fn gen_array(rng: &mut Rng, field: &Field, n: usize, cfg: &GenCfg) -> ArrayR
         DataType::Dictionary(k, v) => {
             let card = rng.urange(1, 6);
             // null dictionary *values* are logical nulls: only for nullable fields
-            let vf = Field::new("v", v.as_ref().clone(), field.is_nullable() && rng.chance(1, 4));
+            let vf = Field::new("v", v.as_ref().clone(), field.is_nullable() && cfg.nulls && rng.chance(1, 4));
             let values = gen_array(rng, &vf, card, cfg);
             macro_rules! dict {
                 ($kt:ty, $nat:ty) => {{
